@@ -76,7 +76,8 @@ func GetReqDecoder(rt reflect.Type, byTag string, config *DecodeConfig) (Decoder
 
 	for i := 0; i < el.NumField(); i++ {
 		if el.Field(i).PkgPath != "" && !el.Field(i).Anonymous {
-			// ignore unexported field
+			// ignore unexported field: nothing is bound to it, its rules are checked all the same
+			needValidate = needValidate || hasValidateTag(el.Field(i), config)
 			continue
 		}
 
@@ -119,6 +120,13 @@ func elemMayCarryRules(t reflect.Type) bool {
 	return false
 }
 
+// hasValidateTag reports whether the field carries a validation rule. The validator
+// checks the rules of fields the decoder has nothing to bind to as well.
+func hasValidateTag(field reflect.StructField, config *DecodeConfig) bool {
+	_, ok := field.Tag.Lookup(config.ValidateTag)
+	return ok
+}
+
 type parentInfos struct {
 	Types    []reflect.Type
 	Indexes  []int
@@ -134,7 +142,7 @@ func getFieldDecoder(pInfo parentInfos, field reflect.StructField, index int, by
 	// 		string
 	// }
 	if field.Type.Kind() != reflect.Struct && field.Anonymous {
-		return nil, false, nil
+		return nil, hasValidateTag(field, config), nil
 	}
 
 	// JSONName is like 'a.b.c' for 'required validate'
@@ -161,7 +169,7 @@ func getFieldDecoder(pInfo parentInfos, field reflect.StructField, index int, by
 	// map filed decoder
 	if field.Type.Kind() == reflect.Map {
 		dec, err := getMapTypeTextDecoder(field, index, fieldTagInfos, pInfo.Indexes, config)
-		return dec, needValidate || elemMayCarryRules(field.Type.Elem()), err
+		return dec, needValidate || elemMayCarryRules(field.Type.Elem()) || elemMayCarryRules(field.Type.Key()), err
 	}
 
 	// struct field will be resolved recursively
@@ -193,6 +201,7 @@ func getFieldDecoder(pInfo parentInfos, field reflect.StructField, index int, by
 		for i := 0; i < el.NumField(); i++ {
 			if el.Field(i).PkgPath != "" && !el.Field(i).Anonymous {
 				// ignore unexported field
+				needValidate = needValidate || hasValidateTag(el.Field(i), config)
 				continue
 			}
 			var idxes []int
